@@ -18,7 +18,8 @@ RULE = ('Generated documents with unique-id fields, unique or duplicated names (
         'final newline, free comments between paragraphs, leading/trailing comment blocks, and the empty file x histories of '
         '<= 8 operations: order_first/last/before/after with plain-name (= all occurrences) and (name, i) keys and references, '
         'sort_fields with explicit and default key, indexed/un-indexed set and delete, Deb822FileElement.insert at every index '
-        'incl. 0 and past-the-end, append.  Non-trivial: duplicated names present or >= 2 paragraphs, and >= 2 operations.')
+        'incl. 0 and past-the-end, append; 30% of the histories also hold sorts whose key function raises or returns keys that cannot be ordered '
+        '(the paragraph must keep every field, whole).  Non-trivial: duplicated names present or >= 2 paragraphs, and >= 2 operations.')
 ASSUMPTIONS = ['reference semantics: "before" uses the first, "after" the last occurrence of a plain-name reference; un-indexed set '
                'replaces the first occurrence and removes the others; fields moved together keep their relative order',
                'insert/append: only paragraph order and whole-text preservation are demanded; which side of a free-floating comment '
